@@ -325,6 +325,9 @@ var faultN int
 func rel(s string) string { return strings.ReplaceAll(s, root+string(filepath.Separator), "") }
 
 func buildSweeps() {
+	if tag == "c05" {
+		return // the fault suite has its own systematic part (faultCases): single faults and pairs
+	}
 	if tag == "c08" {
 		for k := 1; k <= 26; k++ {
 			for _, st := range []int{200, 404, 503, 0} {
